@@ -82,6 +82,7 @@ def random_analysis(rng, nmax=20000, nmin=50, backends=("numba", "numpy", "auto"
         "Jdes": int(rng.choice([5, 20, 60, 150])),
         "Kdes": int(rng.choice([1, 5, 30, 100])),
         "band": None,
+        "verbose": bool(rng.random() < 0.15),
     }
     if allow_band and rng.random() < 0.25:
         d["band"] = "pending"
@@ -102,6 +103,8 @@ def analyzer_kwargs(desc):
               Kdes=desc["Kdes"], order=desc["order"], scheduler=desc["sched"],
               backend=desc["backend"])
     kw.update(win_args(desc["win"]))
+    if desc.get("verbose"):
+        kw["verbose"] = True
     if desc.get("band") not in (None, "pending"):
         kw["band"] = tuple(desc["band"])
     return kw
